@@ -295,7 +295,7 @@ func ruleNoListenerNoOutput(w *World, r *Report, pfx string) {
 		c, ok := v.V.(*ssa.Call)
 		return ok && c.Call.StaticCallee() != nil && c.Call.StaticCallee().Name() == "IsTerminal"
 	}
-	n, over := w.enumPaths(nw, pathOpts{InlineDepth: 0, MaxPaths: 50000}, func(p *Path) {
+	n, over := w.enumPaths(nw, pathOpts{InlineDepth: 3, Inline: w.helperInline(nw), MaxPaths: 50000}, func(p *Path) {
 		if bad != "" || p.Exit != "return" {
 			return
 		}
